@@ -138,8 +138,14 @@ def token_fields(tcls):
 
 def token_row(tcls, name):
     from ppci.arch.arch_info import Endianness
+    try:
+        init = int(tcls().bit_value)
+    except Exception as e:
+        raise Untranslatable(f"{tcls}: cannot instantiate without arguments: {e}")
+    if init < 0:
+        raise Untranslatable(f"{tcls}: negative initial bit_value")
     return {
-        "name": name, "cls": tcls, "size": tcls.Info.size,
+        "name": name, "cls": tcls, "size": tcls.Info.size, "init": init,
         "big": tcls.Info.endianness == Endianness.BIG,
         "precode": bool(tcls.Info.precode),
         "fields": token_fields(tcls),
@@ -371,9 +377,9 @@ def lean_field(f):
 
 def lean_token(t):
     fs = ",\n      ".join(lean_field(f) for f in t["fields"])
-    return (f"  ⟨{lstr(t['name'])}, {t['size']}, {lbool(t['big'])}, {lbool(t['precode'])}, [\n      {fs}]⟩"
+    return (f"  ⟨{lstr(t['name'])}, {t['size']}, {lbool(t['big'])}, {lbool(t['precode'])}, {t['init']}, [\n      {fs}]⟩"
             if t["fields"] else
-            f"  ⟨{lstr(t['name'])}, {t['size']}, {lbool(t['big'])}, {lbool(t['precode'])}, []⟩")
+            f"  ⟨{lstr(t['name'])}, {t['size']}, {lbool(t['big'])}, {lbool(t['precode'])}, {t['init']}, []⟩")
 
 
 def lean_pat(p):
